@@ -328,6 +328,12 @@ class Fn:
         return self.blocks[b]["stmts"]
 
     def reachable_blocks(self):
+        if getattr(self, "_rb", None) is not None:
+            return self._rb
+        self._rb = self._reachable_blocks()
+        return self._rb
+
+    def _reachable_blocks(self):
         seen = {0}
         q = deque([0])
         while q:
@@ -372,6 +378,16 @@ class Fn:
     def asserts(self):
         rb = self.reachable_blocks()
         return [(b["id"], b["term"]) for b in self.blocks if b["term"]["k"] == "assert" and b["id"] in rb]
+
+    def assigns(self):
+        """(block, idx, stmt) of assignment statements on normal-flow blocks."""
+        rb = self.reachable_blocks()
+        for b in self.blocks:
+            if b["id"] not in rb:
+                continue
+            for i, s in enumerate(b["stmts"]):
+                if s["k"] == "assign":
+                    yield b["id"], i, s
 
     # ---- dominators (iterative, on normal-flow CFG)
     def _compute_dom(self):
@@ -469,7 +485,10 @@ class Fn:
     # ---- definitions and expression recovery
     def _compute_defs(self):
         defs = defaultdict(list)  # local -> [(proj(list), block, idx, kind, payload)]
+        rb = self.reachable_blocks()
         for b in self.blocks:
+            if b["id"] not in rb:
+                continue  # normal flow only: cleanup/unwind blocks are not part of the analysed behaviour
             for i, s in enumerate(b["stmts"]):
                 if s["k"] == "assign":
                     defs[s["lhs"]["l"]].append((s["lhs"]["p"], b["id"], i, "rv", s["rv"]))
@@ -966,7 +985,10 @@ class Program:
         """Assignments whose lhs ends in a projection to adt.field: (fn, block, idx, stmt)."""
         out = []
         for p, f in self.fns.items():
+            rb = f.reachable_blocks()
             for b in f.blocks:
+                if b["id"] not in rb:
+                    continue
                 for i, s in enumerate(b["stmts"]):
                     if s["k"] != "assign":
                         continue
